@@ -8,7 +8,7 @@ __all__ = [
 ]
 
 _CompNode: typing.TypeAlias = ListComp | SetComp | DictComp | GeneratorExp
-T = typing.TypeVar("T", expr, NamedExpr, Name, _CompNode)
+T = typing.TypeVar("T", expr, NamedExpr, Name, _CompNode, Lambda)
 
 
 class PendingExprGeneric(typing.Generic[T]):
@@ -125,6 +125,51 @@ class PendingComp(PendingExprGeneric[_CompNode]):
             raise RuntimeError("Unknown comprehension target")
 
 
+class PendingLambda(PendingExprGeneric[Lambda]):
+    target_names: set[str]  # the parameters shadow outer names in the body
+
+    def __init__(self, node: Lambda, nsp: Namespace):
+        super().__init__(node)
+        self.nsp = nsp
+        args = node.args
+        self.target_names = {
+            _arg.arg for _arg in args.posonlyargs + args.args + args.kwonlyargs
+        }
+        if args.vararg is not None:
+            self.target_names.add(args.vararg.arg)
+        if args.kwarg is not None:
+            self.target_names.add(args.kwarg.arg)
+
+    def _iter_fields(self):
+        args = self.node.args
+        # the defaults are evaluated in the enclosing scope
+        defaults = []
+        for default in args.defaults:
+            defaults.append((yield default))
+        kw_defaults = []
+        for kw_default in args.kw_defaults:
+            if kw_default is None:
+                kw_defaults.append(None)
+                continue
+            kw_defaults.append((yield kw_default))
+
+        self.nsp.comp_stack.append(self)
+        body = yield self.node.body
+        assert self.nsp.comp_stack[-1] is self
+        self.nsp.comp_stack.pop()
+
+        self.converted_dict["args"] = arguments(
+            posonlyargs=args.posonlyargs,
+            args=args.args,
+            vararg=args.vararg,
+            kwonlyargs=args.kwonlyargs,
+            kw_defaults=kw_defaults,
+            kwarg=args.kwarg,
+            defaults=defaults,
+        )
+        self.converted_dict["body"] = body
+
+
 class ExpressionTransformer:
     def __init__(self, nsp: Namespace):
         self.pending_stack: list[PendingExprGeneric] = []
@@ -145,6 +190,8 @@ class ExpressionTransformer:
             return PendingName(node, self.nsp)
         elif isinstance(node, (ListComp, SetComp, DictComp, GeneratorExp)):
             return PendingComp(node, self.nsp)
+        elif isinstance(node, Lambda):
+            return PendingLambda(node, self.nsp)
         else:
             return PendingExpr(node)
 
